@@ -12,10 +12,14 @@ CLAIMED = {
          'scheme routines abstracted to "log id + append particles"; bb_utils.cc list parser and the CLI are not reachable'),
  'C06': ('proof', 'For each of the 51 isotopes (and unknown names) and ALL int levels and modes: genbbsub init accepts exactly when the reference GENBBsub (rendered per name by f77c) accepts and sets Qbb/Zdbb/Adbb/EK/levelE/itrans02 identically; level table cross-checked with README Appendix 1; 4-beta, sign and mode-range rules asserted directly.', '3 C06',
          'gA routing, energy-window validation and label<->mode bijection (decay0_generator.cc, bb_utils.cc) are STL/iostream code: not covered'),
+ 'C16': ('proof', 'Ground obligations on the real initialisers of the 6- and 8-point Gauss-Legendre rules of dgmlt1/dgmlt2: all moments up to degree 2n-1 to 1e-13, node antisymmetry, weight symmetry and positivity (bit-precise, no symbolic input).', '3 C16',
+         'only the tabulated rules; exactness on arbitrary intervals is the affine change of variable (assumed); QNG, Simpson, golden section, divided differences, rotate_zyz, Fermi function are not decided'),
  'C03': ('proof', 'Every path of every *low cascade releases the tabulated level energy (nominal accounting defined by the L1/L2 emission contracts) within 3 keV: one CBMC query per routine over all deviates and all tabulated levels.', '3 C03',
          'nominal vs booked energy gap bounded per call by the L2 lemmas; bb/genbbsub Q-value closure and the window facts are not yet under contract (listed in evidence.not_covered)'),
  'C04': ('proof', 'For all deviates: every call-site precondition of every emission primitive holds in all 123 L3 routines (energies >= 0 and above thresholds, finite times), >= 1 and <= 60 particles per routine, decay time >= creation time, no exception, every cycle consumes a deviate.', '3 C04',
          'time order rests on the leaf contract; bounded number of deviates is almost-sure only and not claimed; genbbsub level facts pending'),
+ 'C07': ('proof', 'Hidden state and frame: DFCC assigns obligations on the L0-L2 kernels (nothing but the event, out-parameters and ghost state is written); for every isotope and all int levels/modes, genbbsub initialisation of two arbitrary different parameter blocks ends in the same state (no field left over from an earlier configuration is read); AST frame scan of every rendered function (assignment targets, write-once statics).', '3 C07',
+         'pointer/reference into the particle vector across an emission is claimed under C08; other instances, reset/re-init, shoot() are porcelain (not covered); the AST scan is a static fact, not a CBMC obligation'),
  'C08': ('proof', 'CBMC bounds/pointer/overflow/conversion/division checks on every rendered L3 routine body for all deviates, with std::vector modelled as "any push_back may reallocate" so that a pointer kept across an emission is a failed obligation.', '3 C08',
          'uninitialised reads not covered; kernels/bb/genbbsub bodies pending'),
 }
@@ -24,15 +28,15 @@ NA = {
  '_C02': 'not built yet: relational proof against the Fortran reference (DESIGN 2.5)',
  '_C05': 'not built yet: genbbsub dispatch call-log obligations (DESIGN 3 C05)',
  '_C06': 'not built yet: genbbsub init obligations (DESIGN 3 C06)',
- 'C07': 'not built yet: frame / non-interference obligations (DESIGN 3 C07)',
+ '_C07': 'not built yet: frame / non-interference obligations (DESIGN 3 C07)',
  'C09': 'state machine of decay0_generator: std::string/shared_ptr/pimpl members and exceptions as protocol; CBMC cannot parse the TU and a C rendering would verify a hand-written model of libstdc++, not the code',
- 'C10': 'not built yet: MDL frame obligations (DESIGN 3 C10)',
+ 'C10': 'MDL operation: _rotate_event_ iterates a std::set<int> (red-black tree iterators) and set(config) builds std::string labels; bx2c cannot render them without modelling libstdc++ containers, and the angular facts (norm preserved, direction inside the cone) need trigonometry over reals that no installed back end decides',
  'C11': 'iostream text formatting/parsing and ifstream roll-over: no contract over CBMC\'s C subset can express text<->double round trips without modelling iostream',
  'C12': 'property over thread schedules; DFCC contracts are sequential and bounded concurrency checking is a different technique family',
  'C13': 'process-level behaviour of bxdecay0-run (argv, files, kill points): no function contract reaches it',
  'C14': 'gA sampler: std::vector tables behind a pimpl filled by ifstream parsing; interpolation inequalities over symbolic tables (nonlinear double arithmetic) are undecidable for the installed back ends',
  'C15': 'robustness of iostream/std::string loaders for all byte strings: a parsing property with no C-subset rendering',
- 'C16': 'not built yet: quadrature table moment obligations (DESIGN 3 C16)',
+ '_C16': 'not built yet: quadrature table moment obligations (DESIGN 3 C16)',
  'C17': 'Geant4 classes are not present offline; C++ with inheritance/messengers, outside the C subset',
 }
 def main():
